@@ -1,11 +1,17 @@
 """C09 -- the type graph is a complete dependency order with every cycle cut (DESIGN 7/C09)."""
 from __future__ import annotations
 
+import collections  # noqa: F401  (names a bare reference string may mention: resolved from this module)
+import datetime  # noqa: F401
+import decimal  # noqa: F401
+import fractions  # noqa: F401
 import json
 import os
+import pathlib  # noqa: F401
 import random
 import signal
 import typing
+import uuid  # noqa: F401
 
 import c09_gen as G
 import impl
@@ -441,7 +447,9 @@ def input_forms(case, live, root, nodes, base):
         run_form("value-alias", lambda: exec(f"FormAL = compat.TypeAliasType('FormAL', {text})", mod.__dict__) or mod.__dict__["FormAL"])
         run_form("ForwardRef", lambda: refs.forwardref(text, module=G.MOD_A))
         if case["root"][0] != "cls" and not case["classes"]:
-            run_form("string", lambda: text)   # a bare string is resolved from the caller's frames: builtin names only
+            G.ensure_enum_module()
+            globals()[G.ENUM_MOD] = __import__("sys").modules[G.ENUM_MOD]
+            run_form("string", lambda: text)   # a bare string is resolved from the caller's module (this one)
     return fails
 
 
@@ -458,7 +466,7 @@ def search(run: lib.Run, broken):
     stream = case_stream(rng, run.tier)
     # the stream is long; sample it evenly
     allcases = list(stream)
-    step = max(1, len(allcases) // budget)
+    step = max(1, -(-len(allcases) // budget))
     off = rng.randrange(step)
     pool += allcases[off::step][:budget]
     fails, nontriv = [], 0
